@@ -71,42 +71,97 @@ Definition to_event (k : kevent) : event :=
 Definition is_neg (i : ival) : bool := match i with INeg => true | _ => false end.
 Definition is_pos (i : ival) : bool := match i with IPos => true | _ => false end.
 Definition fn_eqb (a b : fn) : bool :=
-  match a, b with FPercent, FPercent | FTimesPercent, FTimesPercent => true | _, _ => false end.
-(* same thread, same function, same percpu flag: the four independent series *)
-Definition same_slot (a b : kevent) : bool :=
-  (ke_tid a =? ke_tid b) && fn_eqb (ke_fn a) (ke_fn b) && Bool.eqb (ke_percpu a) (ke_percpu b).
+  match a, b with FTimes, FTimes | FPercent, FPercent | FTimesPercent, FTimesPercent => true | _, _ => false end.
+
 (* the kernel state a (successful) call sampled last *)
 Definition ke_last (k : kevent) : kstat := if is_pos (ke_iv k) then ke_k2 k else ke_k1 k.
 
-(* [hist] = earlier calls, most recent first.  The previous sample of the calling
-   thread in this series; a thread without one is measured against "now". *)
-Definition spec_prev (hist : list kevent) (e : kevent) : kstat :=
-  match find (fun h => same_slot h e && negb (is_neg (ke_iv h))) hist with
-  | Some h => ke_last h
-  | None => ke_k1 e
+(* did call h take a sample for thread t in the series (f, percpu)?  The four series
+   cpu_percent / cpu_times_percent x percpu / not are independent of each other. *)
+Definition sel (t : Z) (f : fn) (percpu : bool) (h : kevent) : bool :=
+  (ke_tid h =? t) && fn_eqb (ke_fn h) f && Bool.eqb (ke_percpu h) percpu && negb (is_neg (ke_iv h)).
+
+(* [imp] = Some (mt, k0): psutil was imported by thread mt while the kernel showed k0 -- that
+   is the documented first sample of thread mt in all four series; other threads have none.
+   [hist] = earlier calls, most recent first. *)
+Definition prev_sample (imp : option (Z * kstat)) (hist : list kevent) (t : Z) (f : fn) (percpu : bool) : option kstat :=
+  match find (sel t f percpu) hist with
+  | Some h => Some (ke_last h)
+  | None => match imp with
+            | Some (mt, k0) => if t =? mt then Some k0 else None
+            | None => None
+            end
   end.
+(* a thread without a previous sample is measured against "now" (hence 0.0) *)
+Definition spec_prev (imp : option (Z * kstat)) (hist : list kevent) (e : kevent) : kstat :=
+  match prev_sample imp hist (ke_tid e) (ke_fn e) (ke_percpu e) with Some r => r | None => ke_k1 e end.
 
 Definition cpu_rows (r : kstat) : list (list Z) := map (fun c => ticks (snd c)) (ks_cpus r).
 
 Definition spec_between (f : fn) (percpu : bool) (a b : kstat) : sres :=
   match f, percpu with
+  | FTimes, false => RTimes []                     (* not used: cpu_times compares nothing *)
+  | FTimes, true => RTimesP []
   | FPercent, false => RNum (spec_percent (ticks (ks_total a)) (ticks (ks_total b)))
   | FPercent, true => RNums (zipw spec_percent (cpu_rows a) (cpu_rows b))
   | FTimesPercent, false => RRow (spec_shares (ticks (ks_total a)) (ticks (ks_total b)))
   | FTimesPercent, true => RRows (zipw spec_shares (cpu_rows a) (cpu_rows b))
   end.
 
-Definition spec_result (hist : list kevent) (e : kevent) : outcome sres :=
-  match ke_iv e with
-  | INeg => Exc ValueError
-  | IPos => Val (spec_between (ke_fn e) (ke_percpu e) (ke_k1 e) (ke_k2 e))
-  | INone | IZero => Val (spec_between (ke_fn e) (ke_percpu e) (spec_prev hist e) (ke_k1 e))
+Definition spec_result (clk : positive) (imp : option (Z * kstat)) (hist : list kevent) (e : kevent) : outcome sres :=
+  match ke_fn e with
+  | FTimes => Val (if ke_percpu e then RTimesP (spec_per_cpu_times clk (ke_k1 e)) else RTimes (spec_cpu_times clk (ke_k1 e)))
+  | f =>
+    match ke_iv e with
+    | INeg => Exc ValueError
+    | IPos => Val (spec_between f (ke_percpu e) (ke_k1 e) (ke_k2 e))
+    | INone | IZero => Val (spec_between f (ke_percpu e) (spec_prev imp hist e) (ke_k1 e))
+    end
   end.
 
-Fixpoint spec_run (hist : list kevent) (evs : list kevent) : list (outcome sres) :=
+Fixpoint spec_run (clk : positive) (imp : option (Z * kstat)) (hist : list kevent) (evs : list kevent) : list (outcome sres) :=
   match evs with
   | [] => []
-  | e :: r => spec_result hist e :: spec_run (e :: hist) r
+  | e :: r => spec_result clk imp hist e :: spec_run clk imp (e :: hist) r
+  end.
+
+(* ---- hypotheses of the script theorem, all decidable *)
+Definition cpu_ids (r : kstat) : list bytes := map fst (ks_cpus r).
+Fixpoint list_beqb (a b : list bytes) : bool :=
+  match a, b with
+  | [], [] => true
+  | x :: a', y :: b' => beqb x y && list_beqb a' b'
+  | _, _ => false
+  end.
+(* the kernel keeps its field count nf and the set of online CPUs ids *)
+Definition kstat_ok (nf : nat) (ids : list bytes) (r : kstat) : bool := wf_kstat nf r && list_beqb (cpu_ids r) ids.
+Definition event_wf (nf : nat) (ids : list bytes) (e : kevent) : bool := kstat_ok nf ids (ke_k1 e) && kstat_ok nf ids (ke_k2 e).
+Definition imp_wf (nf : nat) (ids : list bytes) (imp : option (Z * kstat)) : bool :=
+  match imp with Some (_, k0) => kstat_ok nf ids k0 | None => true end.
+
+(* the pairs of tick rows a call compares *)
+Definition pair_rows (percpu : bool) (a b : kstat) : list (list Z) :=
+  if percpu then zipw dticks (cpu_rows a) (cpu_rows b) else [dticks (ticks (ks_total a)) (ticks (ks_total b))].
+Definition event_rows (imp : option (Z * kstat)) (hist : list kevent) (e : kevent) : list (list Z) :=
+  match ke_iv e with
+  | INeg => []
+  | IPos => pair_rows (ke_percpu e) (ke_k1 e) (ke_k2 e)
+  | _ => pair_rows (ke_percpu e) (spec_prev imp hist e) (ke_k1 e)
+  end.
+(* cpu_times_percent only: between the two samples at least one CPU-second elapsed, or nothing
+   moved at all.  Excluded: 0 < elapsed < 1 s (KNOWN FINDING cpu_times_percent-subsecond) and the
+   kernel-inconsistent "no time elapsed but the guest counters moved". *)
+Definition row_ok (clk : positive) (d : list Z) : bool := (Zpos clk <=? spec_total d) || forallb (Z.eqb 0) d.
+Definition event_pairs_ok (clk : positive) (imp : option (Z * kstat)) (hist : list kevent) (e : kevent) : bool :=
+  match ke_fn e with
+  | FTimesPercent => forallb (row_ok clk) (event_rows imp hist e)
+  | _ => true
+  end.
+Fixpoint script_ok (clk : positive) (nf : nat) (ids : list bytes) (imp : option (Z * kstat))
+         (hist : list kevent) (evs : list kevent) : bool :=
+  match evs with
+  | [] => true
+  | e :: r => event_wf nf ids e && event_pairs_ok clk imp hist e && script_ok clk nf ids imp (e :: hist) r
   end.
 
 (* equality of results up to equality of rationals *)
@@ -114,8 +169,8 @@ Definition qlist_eq (a b : list Q) : Prop := Forall2 Qeq a b.
 Definition sres_eq (a b : sres) : Prop :=
   match a, b with
   | RNum x, RNum y => x == y
-  | RNums x, RNums y | RRow x, RRow y => qlist_eq x y
-  | RRows x, RRows y => Forall2 qlist_eq x y
+  | RTimes x, RTimes y | RNums x, RNums y | RRow x, RRow y => qlist_eq x y
+  | RTimesP x, RTimesP y | RRows x, RRows y => Forall2 qlist_eq x y
   | _, _ => False
   end.
 Definition out_eq {A} (R : A -> A -> Prop) (a b : outcome A) : Prop :=
@@ -160,12 +215,4 @@ Fixpoint spec_proc_run (clk : positive) (hist : list (Z * pevent)) (evs : list (
   match evs with
   | [] => []
   | e :: r => spec_proc_result clk hist e :: spec_proc_run clk (e :: hist) r
-  end.
-
-(* ------------------------------------------------------------ cpu_stats *)
-Definition tail_first (n : tname) (r : kstat) : option Z :=
-  match find (fun t => match fst t, n with
-                       | Tctxt, Tctxt | Tintr, Tintr | Tsoftirq, Tsoftirq => true | _, _ => false end) (ks_tail r) with
-  | Some t => match snd t with v :: _ => Some (dec_val v) | [] => None end
-  | None => None
   end.
